@@ -191,6 +191,18 @@ def programs(tier):
             lz, le = mask_for(pupil, Mk, lk)
             stages.append(mask_stage(lz, le))
         out.append(program('babinet%d' % n, 'babinet', pupil, stages, mask_mod=Mk, nq=nq, fpm=fpm, mask=(z, e), lyot=None if lz is None else (lz, le), maskkind=mk, lyotkind=lk))
+    # 5b: the same trip with a shifted focal plane (shift in focal-plane samples, both legs)
+    n = 0
+    for (pupil, fpm), nq, (sx, sy), mk in itertools.product([((2, 2), (2, 2)), ((3, 3), (2, 2)), ((2, 3), (3, 2))], ((2, 1),), (((1, 1), (0, 1)), ((1, 2), (-1, 1))), ('real', 'complex')):
+        n += 1
+        if quick and n % 2 != 1:
+            continue
+        f_row, f_col = Axis(pupil[0], fpm[0], (nq[0], nq[1] * pupil[0]), sy), Axis(pupil[1], fpm[1], (nq[0], nq[1] * pupil[1]), sx)
+        u_row, u_col = Axis(fpm[0], pupil[0], (nq[0], nq[1] * fpm[0]), sy), Axis(fpm[1], pupil[1], (nq[0], nq[1] * fpm[1]), sx)
+        Mk = lcm(f_row.L, f_col.L, u_row.L, u_col.L, 4)
+        z, e = mask_for(fpm, Mk, mk)
+        body = [dft_stage(f_row, f_col, 1, True), mask_stage(z, e), dft_stage(u_row, u_col, -1, True)]
+        out.append(program('fpmshift%d' % n, 'to_fpm_and_back', pupil, body, mask_mod=Mk, nq=nq, fpm=fpm, mask=(z, e), maskkind=mk, sx=sx, sy=sy))
     # 7: modal sums
     for K, (r, c) in ((1, (2, 2)), (3, (2, 3)), (4, (3, 2))):
         modes = [[[((k * 7 + a * 3 + b * 5) % 9) - 4 for b in range(c)] for a in range(r)] for k in range(K)]
@@ -287,8 +299,9 @@ def impl_pair(np, p):
         if q['maskkind'] != 'complex':
             m = m.real.copy()
         if k == 'to_fpm_and_back':
-            fwd = lambda x: PR.Wavefront(x, wvl, dx, 'pupil').to_fpm_and_back(efl, m, fdx).data
-            bwd = lambda yb: PR.Wavefront(yb, wvl, dx, 'pupil').to_fpm_and_back_backprop(efl, m, fdx).data
+            shift = (frac(q.get('sx', (0, 1))) * fdx, frac(q.get('sy', (0, 1))) * fdx)
+            fwd = lambda x: PR.Wavefront(x, wvl, dx, 'pupil').to_fpm_and_back(efl, m, fdx, shift=shift).data
+            bwd = lambda yb: PR.Wavefront(yb, wvl, dx, 'pupil').to_fpm_and_back_backprop(efl, m, fdx, shift=shift).data
             return fwd, bwd, shape
         lyot = None
         if q['lyot'] is not None:
@@ -326,7 +339,7 @@ def replay_lin(rec, p, ctx, np):
     tag = k
     if k in ('to_fpm_and_back', 'babinet'):
         q = p['params']
-        tag += ':%s-mask:%s' % (q['maskkind'], 'same-size' if tuple(q['fpm']) == shape else 'mask!=pupil')
+        tag += ':%s-mask:%s%s' % (q['maskkind'], 'same-size' if tuple(q['fpm']) == shape else 'mask!=pupil', ':shifted' if q.get('sx', (0, 1))[0] or q.get('sy', (0, 1))[0] else '')
         if k == 'babinet':
             tag += ':lyot-%s' % q['lyotkind']
     elif k in ('dft2', 'idft2', 'focus_fixed', 'unfocus_fixed'):
@@ -585,6 +598,26 @@ def replay_soft(rec, ctx, np):
     wantb = np.array([fr(t) for t in rec['back']])
     if gb.shape != (2, n) or core.maxabs(gb[0] - wantb) > 1e-9 * max(1.0, float(np.abs(wantb).max())):
         ctx.fail('Node:%s:backprop' % kind, '%s: backprop %s, exact vector-Jacobian product at the last forward input %s' % (desc, gb[0].tolist() if gb.ndim == 2 else gb.tolist(), wantb.tolist()), rec)
+        return
+    # the same input as one entry of a (2, 2, n) batch: every leading index is an independent variable
+    x3 = np.stack([x, x[::-1]])
+    if kind != 'softmax':
+        stub3 = StubRng(np)
+        g3 = -np.log(-np.log(stub3.uniform(size=x3.shape) + eps) + eps)
+        v3 = np.stack([v, v[::-1]])
+        x3 = tau * np.log(v3) - g3
+        (node if kind == 'gumbel' else node.est).rng = StubRng(np)
+    out3 = np.asarray(node.forward(x3))
+    got3 = out3[0, 0] if kind != 'encoder' else out3[0, :1]
+    if core.maxabs(np.ravel(got3) - want) > 1e-9:
+        ctx.fail('Node:%s:forward:3-D' % kind, '%s: forward of a (2, 2, %d) batch gives %s for the first entry, exact %s' % (desc, n, np.ravel(got3).tolist(), want.tolist()), rec)
+        return
+    if kind == 'encoder':
+        gb3 = np.asarray(node.backprop(np.array([[grad[0], 0.7], [0.2, -1.0]])))
+    else:
+        gb3 = np.asarray(node.backprop(np.stack([np.stack([grad, grad[::-1] * 0.3]), np.stack([grad * 2, grad])])))
+    if gb3.shape != (2, 2, n) or core.maxabs(gb3[0, 0] - wantb) > 1e-9 * max(1.0, float(np.abs(wantb).max())):
+        ctx.fail('Node:%s:backprop:3-D' % kind, '%s: backprop of a (2, 2, %d) batch gives shape %s, first entry %s, exact %s' % (desc, n, gb3.shape, gb3[0, 0].tolist() if gb3.ndim == 3 else None, wantb.tolist()), rec)
 
 
 def replay_cost(rec, ctx, np):
